@@ -44,6 +44,16 @@ def project_list(tier):
     out.append(("subplan_drop", [("f_subplan", {}), ("f_subplan", {"sub": 0})], {"njob": 2}))
     out.append(("twoplans", [("f_twoplans", {"kind": "producer_consumer"})], {"njob": 3}))
     out.append(("fail", [("f_fail", {"kind": "fail"})], {"njob": 2, "keep_going": True}))
+    # recycled nested plans: with 4 jobs the scheduler decides between the requests of the plan
+    out.append(("nested_replan", [("f_nested", {}), ("f_nested", {"v": 2})], {"njob": 4}))
+    out.append(("nested_failfix", [("f_nested", {"pcopy": 1, "src": "!fail"}),
+                                   ("f_nested", {"pcopy": 1, "src": "good", "v": 2})], {"njob": 4}))
+    out.append(("nested_drop", [("f_nested", {}), ("f_nested", {"deep": 0})], {"njob": 4}))
+    out.append(("needgraph_replan", [("f_needgraph", {"needs": ("OPTIONAL", "DEFAULT", "OPTIONAL"),
+                                                       "edges": ((), (0,), (1,)), "subplan": 1}),
+                                     ("f_needgraph", {"needs": ("OPTIONAL", "DEFAULT", "OPTIONAL"),
+                                                       "edges": ((), (0,), (1,)), "subplan": 1, "v": 2})],
+                {"njob": 4}))
     return out
 
 
